@@ -53,15 +53,25 @@ def run(ctx):
             return preserve_set
         return NotImplemented
     interp = MiniInterp(ce, mod, expr_hook=expr_hook)
+    # one-line helper methods of the filter (self.m(token)) are inlined
+    from ..repo import inline_simple_calls
+    loop_body = [inline_simple_calls(mod, s, cls=cls) for s in body[1].body]
+    html_ns = ce.const("constants.py", "namespaces")["html"]
+    # namespace of the element token: the HTML namespace, None (trees built with namespaceHTMLElements=False) or absent
+    # (hand-made streams); whether a *foreign* element called pre preserves white space is not part of the statement
+    NS_CASES = (("html", html_ns), ("none", None), ("absent", "<absent>"))
     for ty in TYPES:
         for depth in (0, 1, 2):
             for name in ("pre", "div"):
+              for ns_label, ns_val in (NS_CASES if ty == "StartTag" and depth == 0 and name == "pre" else NS_CASES[:1]):
                 for data in ("", " \n", "a  b"):
                     token = {"type": ty, "name": name, "data": data}
-                    res = interp.run(body[1].body, {tok: token, counter: depth, "self": Opaque("self")})
+                    if ns_val != "<absent>":
+                        token["namespace"] = ns_val
+                    res = interp.run(loop_body, {tok: token, counter: depth, "self": Opaque("self")})
                     ys = [e for e in res.effects if isinstance(e.node, ast.Expr) and isinstance(e.node.value, ast.Yield)]
                     writes = [e for e in res.effects if e not in ys]
-                    key = "type=%s depth=%d elem=%s data=%r" % (ty, depth, name, data)
+                    key = "type=%s depth=%d elem=%s%s data=%r" % (ty, depth, name, "" if ns_label == "html" else "[namespace %s]" % ns_label, data)
                     problems = []
                     if len(ys) != 1 or norm(ys[0].node.value.value) != tok:
                         problems.append("yields %s" % [e.text for e in ys])
@@ -78,7 +88,7 @@ def run(ctx):
                             v = norm(w.node.value)
                             if ty == "SpaceCharacters" and v != "' '":
                                 problems.append("white-space token rewritten to %s" % v)
-                            if ty == "Characters" and v != "collapse_spaces(%s['data'])" % tok:
+                            if ty == "Characters" and v not in ("collapse_spaces(%s['data'])" % tok, "SPACES_REGEX.sub(' ', %s['data'])" % tok):
                                 problems.append("text rewritten by %s" % v)
                     if text and depth == 0 and data and not writes:
                         problems.append("text outside a preserved element is not collapsed")
